@@ -35,10 +35,10 @@ def space(tier: str) -> Tuple[List[str], List[Tuple[str, Sequence[int]]]]:
     if tier == "thorough":
         i_d3 = [add(e) for e in V.depth3()]
         fams.append(("single_d3", [(i,) for i in i_d3]))
-        sub2 = i_d2[::3]
+        sub2 = i_d2[::5]
         fams.append(("pair_d2sub", itertools.combinations(sub2, 2)))
-        fams.append(("pair_d1xd2", ((a, b) for a in i_d1[::2] for b in i_d2[::5])))
-        sub1 = sorted(set(i_d1[::3] + i_tr))
+        fams.append(("pair_d1xd2", ((a, b) for a in i_d1[::3] for b in i_d2[::7])))
+        sub1 = sorted(set(i_d1[::5] + i_tr))
         fams.append(("triple_d1sub", itertools.combinations(sub1, 3)))
         fams.append(("quad_reps", itertools.combinations(i_tr[::2], 4)))
     return alpha, fams
